@@ -208,11 +208,9 @@ pub fn random<const N: usize, P: Pad>(ctx: &mut Ctx) {
                 return;
             }
             let mut leaked = false;
-            if repaint {
-                ctx.attribute = Some("C04");
-            }
             let dead = TokG::<P>::new(3);
             let dead_img = image(&dead);
+            let dead_id = dead.id;
             drop(dead);
             let live_tok = TokG::<P>::new_pinned(2);
             let live_img = image(&live_tok);
@@ -235,6 +233,18 @@ pub fn random<const N: usize, P: Pad>(ctx: &mut Ctx) {
                     }
                 }
                 let out = step(&mut h, &mut model, &op, &mut env, ctx, &mon, fault, Some(&pre));
+                if repaint {
+                    for (k, id) in out.events.iter().zip(out.event_ids.iter()) {
+                        if *id == dead_id || *id == live_tok.id || k.starts_with("garbage_touched") {
+                            let c = ctx.cur_case.clone();
+                            ctx.violation(
+                                "C04",
+                                format!("op={}|ncap={}|touched_injected_copy:{}", op.name(), ncls(N), k.split('@').next().unwrap_or("")),
+                                format!("{:?} touched garbage planted in an unoccupied slot ({}); case={}", op, k, c),
+                            );
+                        }
+                    }
+                }
                 if out.injected {
                     // whatever goes wrong from here on in this history refutes the fault property
                     let k = fault.unwrap().0;
@@ -268,8 +278,14 @@ pub fn random<const N: usize, P: Pad>(ctx: &mut Ctx) {
             }
             vc = env.vc;
             teardown(h, ctx, "history", None, leaked);
+            let live_id = live_tok.id;
+            let live_ok = ledger_is_live(live_id);
             drop(live_tok);
-            flush_events(ctx, "history", N, "after_history", None);
+            let evs = flush_events_ids(ctx, "history", N, "after_history", None);
+            if repaint && (!live_ok || evs.iter().any(|x| x.1 == live_id || x.1 == dead_id)) {
+                let c = ctx.cur_case.clone();
+                ctx.violation("C04", format!("op=history|ncap={}|injected_copy_destroyed", ncls(N)), format!("a byte-copy planted in an unoccupied slot was destroyed through the buffer; case={}", c));
+            }
         }));
         ctx.attribute = None;
         if res.is_err() {
